@@ -68,3 +68,62 @@ let () =
 
 let () =
   register "js_escape_html" (fun a -> match a with [s] -> [hex_of_bstr (js_escape_html (bstr_of_hex s))] | _ -> failwith "js_escape_html: arity")
+
+(* ---- statements ---- *)
+let pdir_of = function
+  | A "id" -> PId | A "noauto" -> PNoAutoescape | A "esc" -> PEscapeHtml
+  | t -> failwith ("bad pdir " ^ to_string t)
+
+let rec cstmt_of (t : Sexp.t) : cstmt =
+  match t with
+  | L [A "sraw"; s] -> SRaw (xs (atom s))
+  | L (A "sprint" :: e :: ds) -> SPrint (cexpr_of e, List.map pdir_of ds)
+  | L [A "slet"; nm; e] -> SLet (xs (atom nm), cexpr_of e)
+  | L [A "sletc"; nm; body] -> SLetC (xs (atom nm), cblk_of body)
+  | L [A "sif"; c; th; rest] -> SIf (cexpr_of c, cblk_of th, celse_of rest)
+  | L [A "sswitch"; v; cs] -> SSwitch (cexpr_of v, ccases_of cs)
+  | _ -> failwith ("bad cstmt " ^ to_string t)
+and cblk_of (t : Sexp.t) : cblk =
+  match t with
+  | L (A "blk" :: items) -> List.fold_right (fun x acc -> BCons (cstmt_of x, acc)) items BNil
+  | _ -> failwith ("bad cblk " ^ to_string t)
+and celse_of (t : Sexp.t) : celse =
+  match t with
+  | L [A "enone"] -> ENone
+  | L [A "eelse"; b] -> EElse (cblk_of b)
+  | L [A "eelif"; c; th; rest] -> EElif (cexpr_of c, cblk_of th, celse_of rest)
+  | _ -> failwith ("bad celse " ^ to_string t)
+and ccases_of (t : Sexp.t) : ccases =
+  match t with
+  | L [A "knone"] -> KNone
+  | L [A "kdefault"; b] -> KDefault (cblk_of b)
+  | L [A "kcase"; L (v :: vs); b; rest] -> KCase (cexpr_of v, List.map cexpr_of vs, cblk_of b, ccases_of rest)
+  | _ -> failwith ("bad ccases " ^ to_string t)
+
+let () =
+  (* minijs_stmt (ij VALUE|none) (scope (xKey xGen)...) COUNTER (env (xKey VALUE)...) MODE xBUF CSTMT
+     -> <hex js text of the statement at indentation 1>
+        <sout: none | hex text>
+        <js_exec from buf = '': ok <hex json [[name, value]...] of the variables afterwards> | err hex | oom> *)
+  register "minijs_stmt" (fun a ->
+    match Sexp.parse ("(" ^ String.concat " " a ^ ")") with
+    | L [ijs; L (A "scope" :: scs); cnt; L (A "env" :: envs); mode; buf; s] ->
+        let ij = (match ijs with A "none" -> None | L [A "ij"; v] -> Some (value_of v) | _ -> failwith "bad ij") in
+        let sc = List.map (function L [k; g] -> (xs (atom k), xs (atom g)) | _ -> failwith "bad scope") scs in
+        let env = List.map (function L [k; v] -> (xs (atom k), value_of v) | _ -> failwith "bad env") envs in
+        let envf k = (try Some (List.assoc k env) with Not_found -> None) in
+        let mode = nn mode and n = nn cnt and buf = xs (atom buf) in
+        let cs = cstmt_of s in
+        let je = { je_vars = [(buf, JStr [])]
+                             @ (match ij with Some v -> [(t_opt_ij, to_js v)] | None -> [])
+                             @ List.map (fun (k, g) -> match envf k with Some v -> (g, to_js v) | None -> (g, JUndef)) sc;
+                   je_data = JObj (List.filter_map (fun (k, v) -> if List.mem_assoc k sc then None else Some (k, to_js v)) env) } in
+        let (j, _) = sgen mode buf [sc] n cs in
+        let text = render_chunks is_print_tbl (sprint (S O) j) in
+        let so = (match sout ij mode go_print_text envf cs with Some (t, _) -> hex_of_bstr t | None -> "none") in
+        let ex = (match js_exec je j with
+                  | Ok je' -> ["ok"; hex_of_string ("[" ^ String.concat "," (List.map (fun (k, v) -> "[" ^ json_str k ^ "," ^ json_of v ^ "]") je'.je_vars) ^ "]")]
+                  | Err m -> ["err"; hex_of_bstr m]
+                  | _ -> ["oom"]) in
+        [hex_of_bstr text; so] @ ex
+    | _ -> failwith "minijs_stmt: bad request")
